@@ -1,4 +1,157 @@
-import Gin.SelectorMap
+/-
+C08 — names resolve by unique dotted suffix.
+
+Property theorems about the `SelectorMap` mirror (`Gin/SelectorMap.lean`); helper lemmas live in
+`Gin/Lemmas/`.  Names are component lists (outermost first); "`q` is a dotted suffix of `k`" is
+`q <:+ k` (`List.IsSuffix`).
+-/
+import Gin.Lemmas.SelMapInv
+
 namespace Gin.C08
-theorem placeholder : True := trivial
+open Gin Gin.Tree Gin.SelMap
+variable {α : Type}
+
+/-- The mutating operations of a `SelectorMap` (a `clear` is a fresh map; a `copy` is, in this
+    immutable model, the map itself — see DESIGN §6 C08 "model limit"). -/
+inductive Op (α : Type) where
+  | set (s : Sel) (v : α)
+  | pop (s : Sel)
+  | clear
+
+/-- `pop` of a missing name raises `KeyError` and changes nothing. -/
+def apply (m : SelMap α) : Op α → SelMap α
+  | .set s v => m.set s v
+  | .pop s => match m.pop s with | some (_, m') => m' | none => m
+  | .clear => SelMap.empty
+
+/-- The representation invariant holds after every history of insertions, removals and clears. -/
+theorem inv_reachable (ops : List (Op α)) : Inv (ops.foldl apply (SelMap.empty : SelMap α)) := by
+  suffices h : ∀ (m : SelMap α), Inv m → Inv (ops.foldl apply m) from h _ inv_empty
+  induction ops with
+  | nil => intro m h; exact h
+  | cons op ops ih =>
+    intro m h
+    apply ih
+    cases op with
+    | set s v => exact inv_set m h s v
+    | pop s =>
+      simp only [apply]
+      cases hp : m.pop s with
+      | none => exact h
+      | some r => obtain ⟨v, m'⟩ := r; exact inv_pop m h s v m' hp
+    | clear => exact inv_empty
+
+/-- The declarative meaning of "the stored name `k` is addressed by `q`": a name equal to a complete
+    stored name addresses exactly that entry; otherwise `q` addresses every stored name that ends
+    with it. -/
+def Matches (m : SelMap α) (q k : Sel) : Prop :=
+  if q ∈ m.keys then k = q else (k ∈ m.keys ∧ q <:+ k)
+
+/-- `matching_selectors` returns exactly the addressed names … -/
+theorem matching_spec (m : SelMap α) (h : Inv m) (q k : Sel) :
+    k ∈ m.matching q ↔ Matches m q k := by
+  unfold matching Matches
+  by_cases hq : q ∈ m.keys
+  · have : m.contains q = true := (AList.contains_iff q m.map).2 hq
+    simp [this, hq]
+  · have hc : m.contains q = false := by
+      cases hcq : m.contains q with
+      | false => rfl
+      | true => exact absurd ((AList.contains_iff q m.map).1 hcq) hq
+    simp only [hc, Bool.false_eq_true, if_false, hq]
+    cases hg : m.tree.get q.reverse with
+    | none =>
+      simp only [List.not_mem_nil, false_iff, not_and]
+      rintro hk ⟨pre, rfl⟩
+      have hf := (h.sem (pre ++ q).reverse (pre ++ q)).2 ⟨hk, rfl⟩
+      rw [List.reverse_append, find_append, hg] at hf
+      simp at hf
+    | some n =>
+      simp only
+      rw [mem_terms_get m.tree h.wf q.reverse n hg]
+      constructor
+      · rintro ⟨p, hp⟩
+        obtain ⟨hk, e⟩ := (h.sem _ _).1 hp
+        refine ⟨hk, p.reverse, ?_⟩
+        have := congrArg List.reverse e
+        simpa using this
+      · rintro ⟨hk, pre, rfl⟩
+        refine ⟨pre.reverse, ?_⟩
+        have := (h.sem (pre ++ q).reverse (pre ++ q)).2 ⟨hk, rfl⟩
+        simpa using this
+
+/-- … each exactly once. -/
+theorem matching_nodup (m : SelMap α) (h : Inv m) (q : Sel) : (m.matching q).Nodup := by
+  unfold matching
+  split
+  · simp
+  · cases hg : m.tree.get q.reverse with
+    | none => simp
+    | some n =>
+      simp only
+      apply terms_nodup n (wf_get _ h.wf _ _ hg) q.reverse
+      intro p s hf
+      have : find m.tree (q.reverse ++ p) = some s := by simp [find_append, hg, hf]
+      exact ((h.sem _ _).1 this).2
+
+/-- `get_match`: the value of the single addressed entry, an ambiguity error when several entries
+    are addressed, the default when none is. -/
+theorem getMatch_spec (m : SelMap α) (h : Inv m) (q : Sel) :
+    match m.getMatch q with
+    | .none => ∀ k, ¬ Matches m q k
+    | .one s v => Matches m q s ∧ (∀ k, Matches m q k → k = s) ∧ m.get? s = some v
+    | .ambiguous _ => ∃ a b, a ≠ b ∧ Matches m q a ∧ Matches m q b := by
+  have hspec := matching_spec m h q
+  have hnd := matching_nodup m h q
+  unfold getMatch
+  cases hm : m.matching q with
+  | nil =>
+    simp only
+    intro k hk
+    have := (hspec k).2 hk
+    simp [hm] at this
+  | cons a rest =>
+    cases rest with
+    | nil =>
+      have ha : Matches m q a := (hspec a).1 (by simp [hm])
+      have hak : a ∈ m.keys := by
+        unfold Matches at ha
+        by_cases hq : q ∈ m.keys
+        · simp only [hq, if_true] at ha; subst ha; exact hq
+        · simp only [hq, if_false] at ha; exact ha.1
+      have hsome : (m.get? a).isSome := (AList.lookup_isSome_iff a m.map).2 hak
+      simp only
+      cases hv : m.get? a with
+      | none => simp [hv] at hsome
+      | some v =>
+        simp only
+        refine ⟨ha, ?_, hv⟩
+        intro k hk
+        have := (hspec k).2 hk
+        simpa [hm] using this
+    | cons b rest' =>
+      simp only
+      rw [hm] at hnd
+      refine ⟨a, b, ?_, (hspec a).1 (by simp [hm]), (hspec b).1 (by simp [hm])⟩
+      intro e; subst e
+      simp at hnd
+
+/-- `get_all_matches` returns the values of exactly the addressed entries. -/
+theorem getAll_spec (m : SelMap α) (h : Inv m) (q : Sel) (v : α) :
+    v ∈ m.getAll q ↔ ∃ k, Matches m q k ∧ m.get? k = some v := by
+  unfold getAll
+  simp only [List.mem_filterMap]
+  constructor
+  · rintro ⟨k, hk, hv⟩; exact ⟨k, (matching_spec m h q k).1 hk, hv⟩
+  · rintro ⟨k, hk, hv⟩; exact ⟨k, (matching_spec m h q k).2 hk, hv⟩
+
+/-! Non-vacuity: a reachable map with names that are suffixes of one another. -/
+def demo : SelMap Nat :=
+  [Op.set ["a", "b", "c"] 1, Op.set ["x", "b", "c"] 2, Op.set ["b", "c"] 3,
+   Op.pop ["x", "b", "c"]].foldl apply SelMap.empty
+
+example : Inv demo := inv_reachable _
+example : (demo.matching ["c"]).length = 2 := by decide
+example : demo.matching ["b", "c"] = [["b", "c"]] := by decide
+
 end Gin.C08
